@@ -27,12 +27,14 @@ type ExploreConfig struct {
 	StopOnViol   int // stop after this many violating paths (0 = never)
 	Params       map[string]int64
 	IntMode      bool
-	SampleModels int // keep an end-of-path model for this many paths
+	OnPath       func(*PathResult) // if set, results are streamed instead of retained
+	SampleModels int               // keep an end-of-path model for this many paths
 	sampled      *int
 }
 
 type ExploreResult struct {
 	Paths        []*PathResult
+	NPaths       int
 	Truncated    bool
 	Queries      int
 	SolverTime   time.Duration
@@ -144,7 +146,12 @@ func (in *Interp) Explore(cfg ExploreConfig) *ExploreResult {
 			}
 
 			mu.Lock()
-			res.Paths = append(res.Paths, pr)
+			res.NPaths++
+			if cfg.OnPath != nil {
+				cfg.OnPath(pr)
+			} else {
+				res.Paths = append(res.Paths, pr)
+			}
 			for _, a := range pr.Asserts {
 				if a.Verdict == "sat" && a.Known == "" {
 					viol++
